@@ -2,12 +2,12 @@ package world
 
 import (
 	"bytes"
-	"fmt"
-	"sync"
 	"crypto/sha256"
 	"encoding/hex"
 	"errors"
+	"fmt"
 	"math/big"
+	"sync"
 	"time"
 
 	"cosmossdk.io/collections"
